@@ -604,7 +604,9 @@ fn eval_mutant(
             let ep = if e2 == "run" { format!("{entry}+run") } else { e2.clone() };
             recs.push(Rec::violated(
                 format!("{key}:{entry}"),
-                format!("panic/{ep}/{site}"),
+                // keyed by entry point, panic site AND the altered part of the input: a change that
+                // turns a refused alteration into a panic at an already listed site must not be absorbed
+                format!("panic/{ep}/{site}@{class}"),
                 json!({"shape": name, "mutant": mu, "mutation": mlabel, "path_class": class, "entry_point": ep,
                     "native": native.label(), "panic": msg}),
             ));
